@@ -21,6 +21,7 @@ import (
 	"github.com/deadsy/sdfx/render/dc"
 	"github.com/deadsy/sdfx/sdf"
 	v2 "github.com/deadsy/sdfx/vec/v2"
+	v3 "github.com/deadsy/sdfx/vec/v3"
 	"verif/sim/simcore"
 )
 
@@ -501,6 +502,15 @@ func (ep *episode) faultPath(j *Job, ext string) (string, error) {
 				return "", err
 			}
 			base = link + "/../" + strings.TrimPrefix(name, "@dotdot/")
+		case strings.HasPrefix(name, "@link/"):
+			// the path is a symbolic link to the file (latest.stl -> part-v3.stl)
+			n := strings.TrimPrefix(name, "@link/")
+			real := filepath.Join(ep.dir, fmt.Sprintf("real%d-%s", j.ID, n))
+			base = filepath.Join(ep.dir, fmt.Sprintf("link%d-%s", j.ID, n))
+			os.Remove(base)
+			if err := os.Symlink(real, base); err != nil {
+				return "", err
+			}
 		case strings.HasPrefix(name, "="):
 			// the same base name as other jobs of the episode (part.stl next to part.3mf)
 			base = filepath.Join(ep.dir, strings.TrimPrefix(name, "="))
@@ -626,6 +636,37 @@ func (ep *episode) withFault(j *Job, jr *jobRun, path string, call func()) func(
 	}
 }
 
+// warmModel3 / warmModel2: the program has used the model object before the render (an
+// earlier, finer render; a preview): n evaluations at distinct lattice points, by the
+// calling goroutine, hooks off.
+func warmModel3(s sdf.SDF3, n int) {
+	hooksOff.Store(true)
+	defer hooksOff.Store(false)
+	bb := s.BoundingBox()
+	sz := bb.Size()
+	side := 1
+	for side*side < n {
+		side++
+	}
+	for i := 0; i < n; i++ {
+		s.Evaluate(v3.Vec{X: bb.Min.X + sz.X*float64(i%side)/float64(side), Y: bb.Min.Y + sz.Y*float64(i/side)/float64(side), Z: bb.Min.Z + sz.Z*float64(i%5)/5})
+	}
+}
+
+func warmModel2(s sdf.SDF2, n int) {
+	hooksOff.Store(true)
+	defer hooksOff.Store(false)
+	bb := s.BoundingBox()
+	sz := bb.Size()
+	side := 1
+	for side*side < n {
+		side++
+	}
+	for i := 0; i < n; i++ {
+		s.Evaluate(v2.Vec{X: bb.Min.X + sz.X*float64(i%side)/float64(side), Y: bb.Min.Y + sz.Y*float64(i/side)/float64(side)})
+	}
+}
+
 // envDrain is the reader at the other end of a named pipe.
 // A reader that is busy for a while first stalls every write once the pipe is full.
 func envDrain(rd *os.File, done chan<- int64, busy time.Duration, keep *bytes.Buffer) {
@@ -687,6 +728,10 @@ func (ep *episode) prepare(j *Job, jres *JobResult) (*jobRun, error) {
 		} else {
 			model = buildModel3(j.Model, lw)
 		}
+		if j.Warm > 0 {
+			warmModel3(model, j.Warm)
+			jr.probes = append(jr.probes, "model-used-before-the-render")
+		}
 		var inner render3er
 		rkey := fmt.Sprintf("%s/%d", j.Kind, j.Cells)
 		if j.Share && ep.poolRenderers[rkey] != nil {
@@ -743,6 +788,10 @@ func (ep *episode) prepare(j *Job, jres *JobResult) (*jobRun, error) {
 	case "msu", "msq", "dc2":
 		lw := &leafWrapper{on: j.Leaves}
 		model := buildModel2(j.Model, lw)
+		if j.Warm > 0 {
+			warmModel2(model, j.Warm)
+			jr.probes = append(jr.probes, "model-used-before-the-render")
+		}
 		var inner render2er
 		switch j.Kind {
 		case "msu":
